@@ -29,6 +29,7 @@ from simkit.world import StepBudgetExceeded, StreamPlan, World, call_with_budget
 PROP = "C18"
 LEVEL = "exploration"
 TIERS = {"quick": 4800, "thorough": 160000}
+LOCALE_VARIES = True  # three of the sixteen shards run in a non-UTF-8 locale (simkit/runner.py: hashseed_for)
 RULE = (
     "one run = one of three machines (plus, in ~2% of the runs, `big`: 1500-3000 elements chained by unions in an order "
     "that builds a deep forest unless union balances, then queried; and the checkers on a sorted neurite of that many "
@@ -351,6 +352,10 @@ def table_checks(pid: list[int], what: str, rowkeys=None, base: int = 0):
     pids = np.array([(-1 if pid[i] == -1 else pid[i] + base) for i in order], dtype=np.int32)
     df = pd.DataFrame({"id": ids.copy(), "type": np.zeros(n, dtype=np.int32), "x": np.zeros(n), "y": np.zeros(n),
                        "z": np.zeros(n), "r": np.ones(n), "pid": pids.copy()})
+    if (n + sum(pid)) % 3 == 0 and n > 1:
+        # the table as it looks after the caller filtered or re-ordered a bigger one: the row labels (index) are
+        # not 0..n-1 any more, the rows and their order are the same
+        df.index = [(7 * k + 3) % (n + 5) + (n + 5) * (k % 2) for k in range(n)]
     exp = table_model.connected(pid)
     got = guarded("is_single_root", lambda: swc_utils.is_single_root(df))
     if bool(got) != exp:
@@ -445,7 +450,21 @@ def run_table(program: dict, world: World, out: dict):
             world.probe("c18.table_is_forest")
             interesting = True
         table_checks(pid, f"step {si}", rowkeys, base)
-        if k != "set":
+        if k == "pop" and len(pid) >= 1 and si % 2:
+            # the caller drops the last node by filtering the frame it already has: labels keep their gaps
+            removed = len(pid)  # id (before the base) of the node that was dropped
+            pdf = pdf[pdf["id"] != removed + base]
+            if len(pdf) and (pdf["pid"] == removed + base).any():
+                pdf = pdf.copy()
+                pdf.loc[pdf["pid"] == removed + base, "pid"] = -1
+            if sorted(int(v) - base for v in pdf["id"]) != list(range(len(pid))):
+                pdf, porder = persistent_frame(pid, rowkeys, base)
+            else:
+                porder = [int(v) - base for v in pdf["id"]]
+                pdf = pdf.sort_values("id", kind="stable") if si % 4 == 1 else pdf
+                porder = [int(v) - base for v in pdf["id"]]
+                world.probe("c18.frame_filtered_keeps_old_labels")
+        elif k != "set":
             pdf, porder = persistent_frame(pid, rowkeys, base)
         diagnose_persistent(pdf, pid, f"step {si}")
         out["states"].append("t" + ",".join(str(x) for x in pid))
@@ -635,6 +654,14 @@ def run_roots(program: dict, world: World, out: dict):
                 # no-parent marker; `nearest` may make exactly that node a parent. The statement cannot mean a
                 # particular answer for an ambiguous encoding: the ids are left as they are in this case.
                 reset = False
+            # the same text from a path, a StringIO or a BytesIO (stream sources carry no file name)
+            srck = ["path", "path", "string", "bytes"][(ri + n) % 4]
+            if srck == "string":
+                path = world.string_source(text)
+            elif srck == "bytes":
+                path = world.bytes_source(text.encode(), plan)
+            if srck != "path":
+                world.probe("c18.forest_read_from_a_stream")
             if api == "read_swc":
                 df, _ = guarded(op, lambda: swc_utils.read_swc(path, fix_roots=fix, sort_nodes=sort, reset_index=reset))
                 rows = frame_rows(df)
